@@ -740,6 +740,9 @@ class SsbGraphMinimizer:
                     in_edges = v.in_edges()
                     out_edges = v.out_edges()
                     if len(in_edges) == 0:
+                        if v["op"].referenced_from_other_routine:
+                            # No jump inside this routine leads here, but one from another routine does.
+                            continue
                         if v.index == 0 and not (len(out_edges) == 1 and out_edges[0].target == 1):
                             # The label is the entry point of the routine and does not simply continue with the
                             # next vertex: removing it would make another vertex the entry point.
